@@ -5,6 +5,8 @@ import (
 	_ "verifmc/checks/c06"
 	_ "verifmc/checks/c07"
 	_ "verifmc/checks/c09"
+	_ "verifmc/checks/c12"
+	_ "verifmc/checks/c13"
 	_ "verifmc/checks/c14"
 	_ "verifmc/checks/c15"
 	_ "verifmc/checks/c16"
